@@ -1,5 +1,5 @@
 import MuscleModel.Reflector.UpdateProofs
-import MuscleModel.Reflector.MirrorProofs30
+import MuscleModel.Reflector.MirrorProofs33
 
 /-!
 # C04 — A subscriber's mirror of the node tree converges to the server's tree
@@ -63,25 +63,61 @@ contain their own nodes by design).
 Section 13 (lemmas `Reflector/MirrorProofs30.lean`): the subscriber's own max-items and default-route parameter commands
 at quiescent points (`own_param_step`), `Run2`, `converges_changing_subs_params`.
 
-Full statements of the property theorems that are NOT proved (kept for reference):
-  `step_mirror : MReach sv → CmdOK c → ∀ attached s with subscriptions enabled, ∃ evs, Sync s.sid s sv (runCmd sv a c) m evs`
-     for EVERY command class, and
-  `converges : ∀ history from the empty server (attach/detach/runCmd/pushAll/pump), ∀ s attached at the end,
-     replaying every PR_RESULT_DATAITEMS Message delivered to s since it attached gives a mirror m with MirrorOK final s m`.
-Proved command classes: overwrite of an existing node and creation of the last clause of a path whose parent exists (whole
-command `set`); creation of one leaf and removal of one childless node at the level of the primitive the handlers call.  Missing, exactly:
- (a) the lift of `step_mirror_create` / `step_mirror_remove_leaf` to the whole handlers: `setDataClauses` creating several
-     nodes (a chain of `step_mirror_create`, needs `Unamb` for each created path), `removeChild` over `removalOrder` (a chain
-     of `step_mirror_remove_leaf` preceded by `removeIndexEntry`, which only touches the index and `nextIdx`; needs "every
-     node is childless when its turn comes", i.e. the `removeDescs` lemmas of C13), REMOVEDATA (fold over the traversal's
-     visits), `detach` of another session, `ins`/`setm` (chains of creations / overwrites);
- (b) subscribe: the `doGetData` snapshot is delivered straight to the inbox by a traversal with `GetDataCallback`, which
-     returns depth 2 on the subscriber's own nodes — C05 has no theorem for that callback; with `indexingPresent` the
-     subscriber's OWN nodes are included although it does not reflect to itself, so `MirrorOK` as stated needs
-     `¬ indexingPresent ∨ reflectSelf` there; re-filter and unsubscribe (client drop rule) likewise not done;
- (c) `Unamb` as an invariant: it follows from "no node name contains `/`" (`pathString` is then injective), which holds
-     when hosts are given without `/`; not carried through the handlers here — it is an explicit hypothesis;
- (d) the induction over histories; its shape is `step_chain` + `converges_partial`.
+Section 14 (lemmas `Reflector/MirrorProofs31…33.lean`): re-subscription of a held path with another filter
+(`step_mirror_refilter`), the reflect-to-self parameter (`own_self_step`), `Run3`, and the final theorem `converges`.
+
+## COVERAGE OF THE FINAL THEOREM `converges` (section 14) — the one place to read what is proved and what is not
+
+Statement.  Start: ANY state with the invariants `Inv2` (every state reached from the empty server with slash-free host
+names and `GoodPath` SUBSCRIBEs: `creach_inv2`; `converges_reach` is the corollary for those) in which the subscriber `sid`
+is attached with subscriptions enabled, NO subscription, nothing pending, and its client holds the EMPTY mirror.  Then any
+`Run3 sid` (below).  Conclusion: `sid` is still attached, nothing is pending for it, the PR_RESULT_DATAITEMS lines appended
+to its inbox are exactly the text of the Messages among the items its client consumed, and the client's fold (`applyMsg`:
+removals first, then sets, per Message; `applyUnsub` at its own unsubscribes) satisfies `MirrorOK`: it holds a path with a
+payload IFF some node below the root has that path, is visible to the subscriber (not one of its own, or it reflects to
+itself), is matched by its CURRENT subscription set (clauses and filter) and carries that payload CURRENTLY.
+
+COVERED — steps of a `Run3 sid`, in any order and number, each begun at a point where nothing is pending for `sid` (the
+engine pushes after every command line, so every line boundary is such a point):
+ * commands of ANY OTHER session: SETDATA with or without the index flag and `setm` (any mix of existing, created inner and
+   created/overwritten last nodes; hypothesis `SetOK`: 2 + number of non-empty path clauses ≤ the depth fuel 110),
+   REMOVEDATA (recursive, any keys), INSERTORDEREDDATA (`InsDepthOK`: the insert traversal stays within the depth fuel),
+   REORDERDATA, SUBSCRIBE (`GoodPath`) / unsubscribe, every parameter command, GETPARAMETERS, PING, Message forwarding;
+ * the subscriber's OWN SETDATA (both flags), REMOVEDATA, INSERTORDEREDDATA, REORDERDATA, GETPARAMETERS, PING, Messages;
+ * `PushSubscriptionMessages` at any point; departure of any OTHER session; arrival of any session on a slash-free host;
+ * the subscriber's own SUBSCRIBE of a path it does not hold (with or without filter): `SubNewOK` = `GoodPath` + "the
+   session reflects to itself or does not carry the indexing flag" (`subNewOK_by_rule`);
+ * the subscriber's own SUBSCRIBE of a path it HOLDS, with any other (or no, or the same) filter, followed by the engine's
+   push: `RefilterOK` = the same rule for the session + `NoOwnEntering` (no node invisible to the subscriber is reported as
+   a `set` by `ChangeQueryFilterCallback`) — automatic for sessions that reflect to themselves, when the held entry carries
+   no filter (narrowing), and when the path's clauses match none of the subscriber's own nodes (`refilterOK_by_rule`);
+ * the subscriber's own unsubscribe of any path (client drop rule `applyUnsub`);
+ * the subscriber's own max-items and default-route parameters, set or removed;
+ * the subscriber's own reflect-to-self parameter while it holds NO subscription or reflects to itself already (`SelfOK`).
+Session kinds: sessions that reflect to themselves — everything above without further hypothesis; plain sessions without
+the indexing flag — everything above, re-filter with `NoOwnEntering`.
+
+OUTSIDE (not claimed; with the reason):
+ (1) plain sessions that CARRY THE INDEXING FLAG (after their own INSERTORDEREDDATA / SETDATA with the index flag): their own
+     SUBSCRIBE / re-filter.  `GetDataCallback` then includes the subscriber's own nodes in the snapshot (by design), which
+     `MirrorOK` (own nodes invisible) does not allow; `SubNewOK` can still be discharged by hand when `SnapVisits` holds.
+ (2) re-filter by a plain session when an OWN node enters (old filter rejects, new filter accepts, no other subscription of
+     the session matches): the server reports the own node although notifications never would (example `exOwn` below; the
+     real server behaves the same — recorded observation), so the mirror gains a path the specification excludes.
+ (3) the reflect-to-self parameter set WHILE subscriptions are held by a session not yet reflecting: the server sends no
+     snapshot for it, own nodes become visible for NEW events only; `MirrorOK` for the new visibility rule fails at that
+     moment for every own node already matched.  There is no command that clears the flag.
+ (4) the subscriber's own departure (the mirror ends) and the harness pump that empties inboxes (the theorem speaks about
+     what was APPENDED to the inbox) are not steps of a run.
+ (5) SUBSCRIBE paths that are not `GoodPath` (empty clause — finding F11 — or clauses outside the two pattern laws of C05),
+     SETDATA / INSERTORDEREDDATA beyond the depth fuel (the model's `setDataNode` has no depth check of its own), host names
+     containing `/` (path strings then stop being injective).
+ (6) the engine's subtree ops `clone` / `save` / `restore` / `trees` (C13) are not commands of `runCmd`; `LineOK` of
+     section 4 excludes them from `marks_correct_engine`, and no run contains them.
+ (7) a start with subscriptions already held (the client would need the matching mirror; `run3_quiescent` is the per-step form
+     from ANY `Quiescent` point and covers it when `MirrorOK` is given).
+The earlier convergence theorems (`converges_partial`, `converges_steady`, `converges_fixed_subs…`, `converges_changing_subs`,
+`converges_changing_subs_params`) are special cases kept because their statements are simpler.
 -/
 
 set_option linter.unusedSimpArgs false
@@ -667,9 +703,9 @@ theorem steady_step {sid : Nat} {sv sv' : Server} (hst : Steady sid sv sv') (h :
     to a state in which it has nothing pending again (e.g. after a push): what was appended to the PR_RESULT_DATAITEMS
     lines of its inbox is the text of structured Messages `sent`, and the client that applies them in order — removals
     first, then sets, per Message — holds a right mirror: no matching node missing, none stale, none extra.
-    NOT covered (so `converges` in full is still open): histories containing SUBSCRIBE / re-filter / unsubscribe of `sid`
-    itself (the `doGetData` snapshot needs a traversal theorem for `GetDataCallback`), arrivals, INSERTORDEREDDATA /
-    SETDATA with the index flag, and the parameter commands of `sid`. -/
+    Not in THIS theorem (see `converges`, section 14, and the coverage list in the header): histories containing
+    SUBSCRIBE / re-filter / unsubscribe of `sid` itself, arrivals, INSERTORDEREDDATA / SETDATA with the index flag, and the
+    parameter commands of `sid`. -/
 theorem converges_steady {sid : Nat} {sv sv' : Server} (hst : Steady sid sv sv') (h : Inv sv) {s : Sess}
     (hs : sv.sess? sid = some s) (hen : s.subsEnabled = true) (hq : pend s = {})
     (hq' : ∀ s', sv'.sess? sid = some s' → pend s' = {}) (m : Mirror) (hm : MirrorOK sv s m) :
@@ -746,8 +782,8 @@ theorem hist_step {sid : Nat} {sv sv' : Server} (hh : Hist sid sv sv') (h : Inv 
     order).  At every later point with nothing pending for `sid`: the PR_RESULT_DATAITEMS lines appended to its inbox since
     `sv0` are the text of Messages `sent`, and the client that applied them in order — removals first, then sets — holds
     exactly the nodes matching its subscription, with their current payloads.
-    NOT covered: arrivals, INSERTORDEREDDATA / index flag / REORDERDATA, further (un)subscribes and parameter commands of
-    `sid` itself, and plain (non-reflecting) sessions without the `SnapVisits` hypothesis. -/
+    Not in THIS theorem (see `converges`, section 14): arrivals, INSERTORDEREDDATA / index flag / REORDERDATA, further
+    (un)subscribes and parameter commands of `sid` itself; `SnapVisits` is a hypothesis here (discharged in section 12). -/
 theorem converges_fixed_subs {sv0 sv' : Server} (h0 : Inv sv0) {sid : Nat} {s0 : Sess} (hs0 : sv0.sess? sid = some s0)
     (hnos : s0.subs = []) (hen : s0.subsEnabled = true) (hq0 : pend s0 = {}) (path : Bytes) (f : Option Filt)
     (hgood : GoodPath (adjustPrefix path (some defaultPrefix)))
@@ -870,8 +906,8 @@ theorem story_step {sid : Nat} {sv sv' : Server} (hh : Story sid sv sv') (h : In
 /-- `converges_fixed_subs` over `Story`: after ONE SUBSCRIBE from the empty mirror, ANY interleaving of the commands of
     all sessions (every command class for the others; SETDATA, REMOVEDATA, PING, GETPARAMETERS and client-to-client
     Messages also for the subscriber itself), pushes, departures of others and arrivals keeps the replayed mirror right at
-    every quiescent point.  NOT covered: further SUBSCRIBE / unsubscribe / parameter / index commands of the subscriber
-    itself, and plain (non-reflecting) subscribers without the `SnapVisits` hypothesis. -/
+    every quiescent point.  Not in THIS theorem (see `converges`, section 14): further SUBSCRIBE / unsubscribe /
+    parameter commands of the subscriber itself; `SnapVisits` is a hypothesis here (discharged in section 12). -/
 theorem converges_fixed_subs_story_thm {sv0 sv' : Server} (h0 : Inv2 sv0) {sid : Nat} {s0 : Sess}
     (hs0 : sv0.sess? sid = some s0) (hnos : s0.subs = []) (hen : s0.subsEnabled = true) (hq0 : pend s0 = {})
     (path : Bytes) (f : Option Filt) (hgood : GoodPath (adjustPrefix path (some defaultPrefix)))
@@ -920,9 +956,8 @@ theorem client_def (m : Mirror) (items : List In) :
     SETDATA / REMOVEDATA / PING / GETPARAMETERS / Messages, pushes, departures and arrivals —: nothing is pending, the data
     lines appended to its inbox are the text of the Messages among `items`, and the client's fold over `items` holds exactly
     the nodes matching its CURRENT subscription set with their current payloads.
-    NOT covered (so the unrestricted `converges` is still open): re-subscription of an existing path with another filter
-    (re-filter), the subscriber's own parameter and index commands, plain (non-reflecting) subscribers without the
-    `SnapVisits` hypothesis. -/
+    Not in THIS theorem (see `converges`, section 14): re-subscription of a held path with another filter (re-filter) and
+    the subscriber's own parameter commands. -/
 theorem converges_changing_subs {sid : Nat} {sv0 sv' : Server} (h0 : Inv2 sv0) {s0 : Sess} (hs0 : sv0.sess? sid = some s0)
     (hnos : s0.subs = []) (hen : s0.subsEnabled = true) (hq0 : pend s0 = {}) (hr : Run sid sv0 sv') :
     ∃ s' items, sv'.sess? sid = some s' ∧ pend s' = {} ∧
@@ -1015,5 +1050,170 @@ theorem converges_changing_subs_params {sid : Nat} {sv0 sv' : Server} (h0 : Inv2
 
 /-! Non-vacuity: session 0 of `exSv1` sets its max-items parameter to 1 before subscribing. -/
 example : Run2 0 exSv1 (runCmd exSv1 0 (.paramMax 1)) := .ownParam (.paramMax 1) trivial
+
+
+/-! ## 14. re-filter, the reflect-to-self parameter, and `converges`
+
+`verdict g d`: the verdict of an entry's filter `g` on payload `d` (no filter: true).  `rfCond s fix e f v n`: the condition
+under which `ChangeQueryFilterCallback` reports node `n` at `v` when the held entry `e` (normalised path `fix`) gets filter
+`f`: the verdict changes and no OTHER entry of the session matches.  `NoOwnEntering sv s fix e f`: every node invisible to
+`s` that the path's clauses match and that is reported, is reported as a removal (old verdict true).  `RefilterOK sid sv path f`:
+the session reflects to itself or does not carry the indexing flag, it holds an entry under the normalised spelling of
+`path`, and `NoOwnEntering`.  `SelfOK sid sv`: the session holds no subscription or reflects to itself already.
+`Run3` = `Run2` plus re-filter steps (with the engine's push) and the reflect-to-self parameter. -/
+
+/-- RE-FILTER.  At a quiescent point the subscriber sends SUBSCRIBE for a path it holds.  The server feeds the changes of
+    the filter verdict into the pending Message (flushing at `maxItems`), replaces the filter, delivers the snapshot of the
+    new filter's matches STRAIGHT to the inbox while the rest of those changes is still pending, and the push sends the
+    rest.  The client that applies everything in the order of arrival again holds a right mirror, now for the new filter;
+    nothing is pending. -/
+theorem step_mirror_refilter {sid : Nat} {sv : Server} {s : Sess} {m : Mirror} (q : Quiescent sid sv s m) (path : Bytes)
+    (f : Option Filt) (hok : RefilterOK sid sv path f) :
+    ∃ s' items, Quiescent sid (pushAll (runCmd sv sid (.sub path f))) s' (client m items) ∧
+      dataLines s' = dataLines s ++ (msgsOf items).map dataText ∧ s'.sid = s.sid ∧ s'.reflectSelf = s.reflectSelf :=
+  refilter_quiescent q path f hok
+
+/-- for a subscriber that reflects to itself `RefilterOK` is "the path is held" -/
+theorem refilterOK_reflect_self {sid : Nat} {sv : Server} (path : Bytes) (f : Option Filt)
+    (h : ∀ s, sv.sess? sid = some s → s.reflectSelf = true ∧
+      (pmFind s.subs (adjustPrefix path (some defaultPrefix))).isSome = true) : RefilterOK sid sv path f :=
+  refilterOK_of_reflectSelf path f h
+
+/-- for a plain session: the rule of section 12, the path is held, and either the held entry carries no filter (whatever
+    the new filter drops is reported as a removal — nothing can enter) or the path's clauses match no node invisible to
+    the session -/
+theorem refilterOK_by_rule {sid : Nat} {sv : Server} (path : Bytes) (f : Option Filt)
+    (h : ∀ s, sv.sess? sid = some s → (s.reflectSelf = true ∨ s.indexingPresent = false) ∧
+      ∃ e, pmFind s.subs (adjustPrefix path (some defaultPrefix)) = some e ∧
+        (s.reflectSelf = true ∨ e.filter = none ∨
+          ∀ v n, getNode sv v = some n → clausesMatch (splitSlash (adjustPrefix path (some defaultPrefix))) v = true →
+            visible s v = true)) : RefilterOK sid sv path f :=
+  refilterOK_of_rule path f h
+
+/-- what the re-filter reports, as events: for every visited node whose verdict changes and that no other entry matches,
+    a removal if the old verdict was true, a set otherwise — whether or not the node is visible to the subscriber (this is
+    the recorded observation: notifications test the caller, `ChangeQueryFilterCallback` does not) -/
+theorem refilter_events {s : Sess} {fix : Bytes} {e : Entry} {f : Option Filt} {sv : Server} {V : List Visit} {ev : Ev} :
+    ev ∈ rfEvs s fix e f sv V ↔ ∃ w ∈ V, ∃ n, getNode sv w = some n ∧ rfCond s fix e f w n = true ∧
+      ev = evOf (pathString w) n.data (verdict e.filter n.data) :=
+  mem_rfEvs
+
+/-- The subscriber's own reflect-to-self parameter at a quiescent point, under `SelfOK`: tree, pending Message, inbox and
+    the specification of its mirror are untouched; from then on it reflects to itself. -/
+theorem own_self_step {sid : Nat} {sv : Server} {s : Sess} {m : Mirror} (q : Quiescent sid sv s m) (hok : SelfOK sid sv) :
+    ∃ s', Quiescent sid (runCmd sv sid .paramSelf) s' m ∧ dataLines s' = dataLines s ∧ s'.sid = s.sid ∧
+      s'.subs = s.subs ∧ s'.reflectSelf = true :=
+  selfParam_quiescent q hok
+
+/-- the per-step form: from ANY quiescent point with a right mirror, a `Run3` leads to a quiescent point with a right
+    mirror -/
+theorem run3_quiescent {sid : Nat} {sv sv' : Server} (hr : Run3 sid sv sv') {s : Sess} {m : Mirror}
+    (q : Quiescent sid sv s m) :
+    ∃ s' items, Quiescent sid sv' s' (client m items) ∧
+      dataLines s' = dataLines s ++ (msgsOf items).map dataText ∧ s'.sid = s.sid :=
+  run3_step hr q
+
+/-- CONVERGENCE, final form.  See "COVERAGE OF THE FINAL THEOREM" in the header of this file for the exact list of what a
+    `Run3` may contain and what remains outside.  From a state with the invariants in which `sid` is attached with
+    subscriptions enabled, no subscription, nothing pending, and an empty client mirror, after ANY `Run3 sid`: `sid` is
+    attached, nothing is pending, the data lines appended to its inbox are the text of the Messages among `items`, and the
+    client's fold over `items` holds exactly the nodes that are visible to it and match its CURRENT subscription set, with
+    their CURRENT payloads. -/
+theorem converges {sid : Nat} {sv0 sv' : Server} (h0 : Inv2 sv0) {s0 : Sess} (hs0 : sv0.sess? sid = some s0)
+    (hnos : s0.subs = []) (hen : s0.subsEnabled = true) (hq0 : pend s0 = {}) (hr : Run3 sid sv0 sv') :
+    ∃ s' items, sv'.sess? sid = some s' ∧ pend s' = {} ∧
+      dataLines s' = dataLines s0 ++ (msgsOf items).map dataText ∧
+      MirrorOK sv' s' (client (fun _ => none) items) :=
+  converges_run3 h0 hs0 hnos hen hq0 hr
+
+/-- the same from any state the engine reaches with slash-free host names -/
+theorem converges_reach {sid : Nat} {sv0 sv' : Server} (h0 : CReach sv0) {s0 : Sess} (hs0 : sv0.sess? sid = some s0)
+    (hnos : s0.subs = []) (hen : s0.subsEnabled = true) (hq0 : pend s0 = {}) (hr : Run3 sid sv0 sv') :
+    ∃ s' items, sv'.sess? sid = some s' ∧ pend s' = {} ∧
+      dataLines s' = dataLines s0 ++ (msgsOf items).map dataText ∧
+      MirrorOK sv' s' (client (fun _ => none) items) :=
+  converges_run3 h0.inv2 hs0 hnos hen hq0 hr
+
+/-! Non-vacuity.  (The examples that evaluate a filter use the path `*` — normalised `*/*/*` — because the kernel cannot
+evaluate `globMatch` on a literal clause.) -/
+
+def fGt (n : Nat) : Filt := { op := 2, val := n }
+
+theorem goodPath_star : GoodPath (adjustPrefix [42] (some defaultPrefix)) := by
+  have hs : splitSlash (adjustPrefix [42] (some defaultPrefix)) = [[42], [42], [42]] := by decide
+  unfold GoodPath
+  rw [hs]
+  refine ⟨by decide, ?_⟩
+  intro c hc
+  simp only [List.mem_cons, List.not_mem_nil, or_false] at hc
+  rcases hc with rfl | rfl | rfl <;> exact laws_star
+
+/-- session 0 of `exSv1` (it reflects to itself) after its SUBSCRIBE of `*` -/
+def exSv2 : Server := runCmd exSv1 0 (.sub [42] none)
+
+theorem exSv2_sess0 : (exSv2.sess? 0).map (fun s => (s.reflectSelf,
+    (pmFind s.subs (adjustPrefix [42] (some defaultPrefix))).isSome)) = some (true, true) := by decide +kernel
+
+/-- a `Run3`: session 0 subscribes to `*`, then re-subscribes with the filter "> 5" -/
+example : Run3 0 exSv1 (pushAll (runCmd exSv2 0 (.sub [42] (some (fGt 5))))) := by
+  refine .trans (.run (.run (.subNew [42] none ?_))) (.refilter [42] (some (fGt 5)) ?_)
+  · apply subNewOK_reflect_self (creach_inv2 exSv1_creach).1.1 [42] none goodPath_star
+    intro s hs
+    have h := exSv1_sess0
+    rw [hs] at h
+    simp only [Option.map_some, Option.some.injEq, Prod.mk.injEq] at h
+    have hnil : s.subs = [] := List.eq_nil_of_length_eq_zero h.1
+    exact ⟨h.2, by rw [hnil]; rfl⟩
+  · apply refilterOK_reflect_self
+    intro s hs
+    have h := exSv2_sess0
+    rw [show exSv2.sess? 0 = some s from hs] at h
+    simp only [Option.map_some, Option.some.injEq, Prod.mk.injEq] at h
+    exact h
+
+/-- what session 0 holds after that re-filter, before the push: one line in the inbox (the snapshot of its first SUBSCRIBE
+    with `/i/1/a` = 5; the second snapshot is empty), and the removal of `/i/1/a` (5 > 5 fails) pending -/
+example : ((runCmd exSv2 0 (.sub [42] (some (fGt 5)))).sess? 0).map (fun s => decide (s.inbox.length = 1 ∧
+    (pend s).removed = [pathString [[105], sidName 1, [97]]] ∧ (pend s).sets = [])) = some true := by decide +kernel
+
+/-- a plain session: session 0 of `exSv` holds `a` without filter; narrowing it satisfies `RefilterOK` -/
+theorem exSv_sess0 : (exSv.sess? 0).map (fun s => (s.reflectSelf, s.indexingPresent,
+    (pmFind s.subs (adjustPrefix [97] (some defaultPrefix))).map (·.filter))) = some (false, false, some none) := by
+  decide +kernel
+
+example : RefilterOK 0 exSv [97] (some (fGt 5)) := by
+  apply refilterOK_by_rule
+  intro s hs
+  have h := exSv_sess0
+  rw [hs] at h
+  simp only [Option.map_some, Option.some.injEq, Prod.mk.injEq] at h
+  obtain ⟨h1, h2, h3⟩ := h
+  cases hf : pmFind s.subs (adjustPrefix [97] (some defaultPrefix)) with
+  | none => rw [hf] at h3; cases h3
+  | some e =>
+    rw [hf] at h3
+    exact ⟨Or.inr h2, e, rfl, Or.inr (Or.inl (Option.some.inj h3))⟩
+
+/-- the reflect-to-self parameter of a plain session without subscription (session 1 of `exSv`) -/
+example : Run3 1 exSv (runCmd exSv 1 .paramSelf) := by
+  refine .ownSelf ?_
+  intro s hs
+  have h := exSv_sess1
+  rw [hs] at h
+  simp only [Option.map_some, Option.some.injEq, Prod.mk.injEq] at h
+  exact Or.inl (List.eq_nil_of_length_eq_zero h.1)
+
+/-! The case OUTSIDE `NoOwnEntering` is real (item (2) of the header list).  `exOwn`: session 1, plain, owns `/i/1/a` = 5 and
+holds `*` with the filter "> 7": its inbox is empty, nothing is pending, the node is invisible to it.  It re-subscribes
+to `*` without filter: the server puts a `set` of its OWN node `/i/1/a` into its pending Message. -/
+def exOwn : Server :=
+  runCmd (runCmd (attach (attach {} 0 [104]).1 1 [105]).1 1 (.set [97] 5 false)) 1 (.sub [42] (some (fGt 7)))
+
+example : (exOwn.sess? 1).map (fun s => (s.reflectSelf, s.indexingPresent, s.inbox.length, s.nextData.isNone,
+    visible s [[105], sidName 1, [97]])) = some (false, false, 0, true, false) := by decide +kernel
+
+example : ((runCmd exOwn 1 (.sub [42] none)).sess? 1).map (fun s => decide (s.inbox.length = 0 ∧
+    (pend s).removed = [] ∧ (pend s).sets = [(pathString [[105], sidName 1, [97]], [some 5])])) = some true := by
+  decide +kernel
 
 end Muscle.Props.C04
